@@ -13,6 +13,7 @@ TRUSTED = [
     'translator tools/py2coq.py: FilteredConfigParser._check_tuple regenerated on every run; the four filtered properties and __init__ asserted on the AST (settings stored with the _self_ prefix, i.e. on the proxy)',
     'model/Filter.v (views as filters, histories of views) is hand written and compared with the implementation on generated models, species sets (empty, partial, full, unknown labels) and histories',
     'potable route: output of --include-species / --exclude-species compared with the output for the hand-edited file (differential, in the implementation)',
+    'text level: proof/StoreText.v (printed raw file -> store through model/Ini.v, which restates the stdlib line parser as configured by the repository: an assumption about a library outside the repository, compared with it on every run)',
 ]
 PRE = 'From V Require Import lib.Common model.Store gen.GenFilter model.Filter.\nLocal Open Scope nat_scope.\n'
 
